@@ -210,6 +210,24 @@ def find_method(cq, name):
         a = m.class_attrs.get(cn, {}).get(name)
         if isinstance(a, ast.Name) and (cn + '.' + a.id) in m.funcs:
             return '%s:%s.%s' % (mod, cn, a.id), m.funcs[cn + '.' + a.id]
+        if isinstance(a, ast.Name) and a.id in m.funcs:
+            # class attribute bound to a module-level function (used as a method)
+            return '%s:%s' % (mod, a.id), m.funcs[a.id]
+    # functions attached after the class statement:  Class.name = function
+    for c in mro(cq):
+        mod, cn = split_qual(c)
+        if mod in ('ext', 'builtins'):
+            continue
+        m = load_module(mod)
+        if m is None:
+            continue
+        for node in m.tree.body:
+            if isinstance(node, ast.Assign) and len(node.targets) == 1:
+                t = node.targets[0]
+                if isinstance(t, ast.Attribute) and isinstance(t.value, ast.Name) \
+                        and t.value.id == cn.split('.')[-1] and t.attr == name \
+                        and isinstance(node.value, ast.Name) and node.value.id in m.funcs:
+                    return '%s:%s' % (mod, node.value.id), m.funcs[node.value.id]
     return None, None
 
 
